@@ -64,6 +64,90 @@ def method_call(ip, st, recv, name, pos, kws):
     return None
 
 
+# --------------------------------------------------------------------------- subscripts of abstract flow values
+# v_members {"__getitem__": "item:V"}: `v[k]` for a literal index k >= 0 on an abstract flow value is v_item_<k>(v), an
+# uninterpreted function of the value.  That the value HAS such an item (it is a sequence that is long enough) is the
+# uninterpreted predicate v_has_item_<k>(v): an OBLIGATION at every subscript (so the TypeError / IndexError of a value that
+# is no such sequence never arises in a proved unit).
+def emit_closed(ip, kind, name, st, goal):
+    """ip.emit for an obligation that arises while the body of a quantifier over a sequence is evaluated (all(.. for x in xs)
+    with xs of symbolic length): the obligation is closed over the bound index variables, each within its range; the
+    hypotheses that speak about a bound variable move under the quantifier"""
+    import re
+    from .interp import VC
+    guards = getattr(ip, "bound_guards", [])
+    if not guards:
+        return ip.emit(kind, name, st, goal)
+    if ip.spec_mode or getattr(ip, "silent", 0):
+        return
+    names = [k.s for k, _ in guards]
+
+    def mentions(t):
+        return any(re.search(r"(?<![A-Za-z0-9_!|])%s(?![A-Za-z0-9_!|])" % re.escape(nm), t.s) for nm in names)
+    hyps = [h for h in st.pc if not mentions(h)]
+    local = [h.s for h in st.pc if mentions(h)] + ["(<= 0 %s)" % k.s for k, _ in guards] + ["(< %s %s)" % (k.s, n.s) for k, n in guards]
+    closed = T("(forall (%s) (=> (and %s) %s))" % (" ".join("(%s Int)" % nm for nm in names), " ".join(local), goal.s), "Bool")
+    ip.vcs.append(VC(name + "/" + st.trace, kind, hyps, closed, st.trace, None))
+
+
+def v_item_terms(ip, v, k):
+    f = ip.reg.ufun("v_item_%d" % k, ["V"], "V")
+    h = ip.reg.ufun("v_has_item_%d" % k, ["V"], "Bool")
+    return T("(%s %s)" % (f, v.t.s), "V"), T("(%s %s)" % (h, v.t.s), "Bool")
+
+
+def v_subscript(ip, st, v, i):
+    if table(ip).get("__getitem__") != "item:V":
+        return None
+    from .smt import lit_int
+    k = lit_int(i.t) if isinstance(i, Num) else None
+    if k is None or k < 0:
+        return None
+    item, has = v_item_terms(ip, v, k)
+    if not ip.spec_mode:
+        # (an obligation also where the TypeError / IndexError would be observable: proved, the subscript raises nothing)
+        emit_closed(ip, "safety", "flow value has item %d" % k, st, has)
+        st.assume(has)
+    ip.assumptions.add("flow values: v[%d] of a value is a function of the value (declared v_members __getitem__)" % k)
+    return [(st, Opaque(item))]
+
+
+# --------------------------------------------------------------------------- data attributes of abstract elements
+# Contract(ghost={"obj_attrs": {"_fill_compute": "Obj"}}): `el.<name>` on an abstract element (sort Obj) is a DATA attribute
+# holding another abstract object.  The read raises AttributeError unless has_attr(el, name) (the predicate hasattr
+# evaluates to); otherwise its value is obj_attr(el, name), an uninterpreted function of the element and the name (the
+# attribute is not re-bound during the call: listed as an assumption of the unit).  Undeclared names keep the old
+# reading (a bound method of the element).
+def obj_attr_term(ip, v, name):
+    ip.reg.need_val()
+    f = ip.reg.ufun("obj_attr", ["Obj", "Key"], "Obj")
+    return T("(%s %s %s)" % (f, v.t.s, ip.reg.key(name).s), "Obj")
+
+
+def obj_attr_read(ip, st, v, name):
+    """read of a declared data attribute of the abstract element v; None if the attribute is not declared"""
+    c = getattr(ip, "c", None)
+    kind = ((c.ghost.get("obj_attrs") if c is not None else None) or {}).get(name)
+    if kind is None:
+        return None
+    if kind != "Obj":
+        raise U_("obj_attrs: only attributes holding abstract objects (Obj) are modelled, not %s" % kind)
+    from .builtins_ import has_attr
+    val = Opaque(obj_attr_term(ip, v, name))
+    if ip.spec_mode:
+        return [(st, val)]
+    has = has_attr(ip, st, v, name)
+    if ip.may_catch(st, "AttributeError"):
+        bad = st.fork(NOT(has), "noattr.")
+        ip.raise_(bad, "AttributeError")
+    else:
+        ip.emit("safety", "attribute-%s-exists" % name, st, has)
+    st.assume(has)
+    ip.assumptions.add("abstract elements: the data attribute .%s of an element is read without side effect, exists iff "
+                       "hasattr says so and is not re-bound during the call (declared obj_attrs)" % name)
+    return [(st, val)]
+
+
 # --------------------------------------------------------------------------- opaque regions
 # Contract(ghost={"opaque_regions": [{"start": "<source prefix of the first statement>", "fs": bool, "contexts": bool,
 #                                     "fields": ["name", ...], "raises": ["Exc", ...], "yields": bool}]})
